@@ -43,6 +43,14 @@ For every response:
       _indent / str.isspace / date ordinals — implementation vs model on >= 20 000 values incl.
       malformed strings; the round-trip laws and ISO 8601 duration semantics are evaluated on the
       implementation's own answers.
+  (g2) codecs_week_unicode (work package B2): ISO week dates (lattice years x W00/01/52/53/54 x day 0..9, both layouts,
+      tails, mutations), non-ASCII characters of 2/3/4 octets at every position, durations in every decimal-digit
+      script / Unicode white space / near-digits, int(): implementation vs model, where a model answer `unsupported`
+      is a DISAGREEMENT (theorems parseDatetime_answers / parseDuration_answers / pyInt_answers); judged by the ISO
+      8601 week definition (4 January / 28 December rule, own ordinal arithmetic) and by digit-script invariance; plus
+      the pieces by themselves (iso_to_civil vs date.fromisocalendar, iso_calendar vs date.isocalendar, the separator
+      finder vs _pydatetime, UTF-8 octets, the decimal-digit table) and the general octet-level transcription of
+      fromisoformat on every timestamp text.
   (h) ENVIRONMENT INDEPENDENCE, every run: the emitted text is a function of the response, not of the time zone of the
       PROCESS.  Responses whose bundle / signature times start at every instant of harness/tzenv.lattice() (January /
       July, turn of the year, leap day, -1 h .. +1 h around the 2025 DST switches of every zone; 1..3 bundles, real and
@@ -103,6 +111,7 @@ def read_back(text: str) -> Any:
 ASSUMPTIONS = [
     "CPython 3.12 semantics of int(), datetime.fromisoformat, strftime('%Y') (glibc: unpadded), str.isspace, re — modelled, compared differentially on every run",
     "sys.get_int_max_str_digits() is the default 4300",
+    "Unicode decimal digits / white space as the running Python has them (KskmGen.decimalZeros, intSpaceRanges: tabulated over all code points on every run, cross-checked against re \\d, int() and unicodedata.decimal); lone surrogates are not Lean characters and are not sent to the model",
     "xml.etree.ElementTree (expat) is the standards XML parser",
     "the RELAX NG compact subset interpreter in this module reads schema/ksr.rnc faithfully (subset: element/attribute/ref/group/choice/?/*/+/empty/xsd datatypes with min/maxInclusive)",
     "the signer emits bundles in the loader's order (expiration, inception, id): request bundles are sorted that way on load and sign_bundles keeps their order",
@@ -1303,13 +1312,296 @@ def codecs(res: Result, tier: str, driver_ok: bool) -> None:
         else:
             mm = m
         if lib.is_unsupported(mm):
-            res.unsupported += 1
+            # since work package B2 the codec models answer every text (week dates, non-ASCII octets, Unicode digits)
             res.bump(f"codec:{kind}:unsupported")
+            res.disagreement(f"codec {kind}: the model declines an input", {"kind": kind, "input": _clip(inp, 300)}, _clip(impl, 300), mm)
             continue
         if not same_outcome(impl, mm):
             if kind == "format_datetime" and "error" in impl and "ok" in mm:
                 continue  # no such datetime object (overflow while building the input), nothing to compare
             res.disagreement(f"codec {kind}: model != implementation", {"kind": kind, "input": _clip(inp, 300)}, _clip(impl, 300), _clip(mm, 300))
+
+
+# --------------------------------------------------------------------------------------
+# (g2) ISO week dates and Unicode decimal digits (work package B2): no `unsupported` any more
+# --------------------------------------------------------------------------------------
+
+WEEK_YEARS = [0, 1, 2, 4, 5, 1000, 1582, 1999, 2000, 2004, 2009, 2015, 2016, 2020, 2024, 2025, 2026, 2032, 9998, 9999]
+# 2004/2032: leap, start on Thursday; 2020: leap, starts on Wednesday (53 weeks); 2025: starts on Wednesday, not leap (52);
+# 2009/2015/2026: start on Thursday (53); 2016: leap, starts on Friday (52); 1/9999: the edges of `datetime`.
+
+
+def iso_week_spec(year: int, week: int, day: int) -> int | None:
+    """ISO 8601, from the standard's wording (not from CPython's iso_to_ymd): week 1 is the week (Monday..Sunday) with
+    4 January in it; 28 December is always in the last week of its year; days 1..7 = Monday..Sunday.
+    Proleptic ordinal (1 = 0001-01-01, a Monday) of year-Wweek-day, None when there is no such week/day."""
+
+    def ordinal(y: int, m: int, d: int) -> int:
+        y0 = y - 1
+        before = [0, 31, 59, 90, 120, 151, 181, 212, 243, 273, 304, 334][m - 1]
+        leap = (y % 4 == 0 and y % 100 != 0) or y % 400 == 0
+        return y0 * 365 + y0 // 4 - y0 // 100 + y0 // 400 + before + (1 if leap and m > 2 else 0) + d
+
+    if year < 1 or not 1 <= day <= 7 or week < 1:
+        return None
+    jan4 = ordinal(year, 1, 4)
+    monday1 = jan4 - (jan4 - 1) % 7
+    dec28 = ordinal(year, 12, 28)
+    last_week = (dec28 - monday1) // 7 + 1
+    if week > last_week:
+        return None
+    return monday1 + 7 * (week - 1) + (day - 1)
+
+
+WEEK_RE = re.compile(r"(\d{4})(?:-W(\d\d)(?:-(\d))?|W(\d\d)(\d)?)(?:T(\d\d):(\d\d):(\d\d)(Z|\+00:00)?)?")
+
+
+def week_text_spec(s: str) -> Any:
+    """verdict of the ISO oracle on a text of the strict forms YYYY-Www[-d] / YYYYWww[d] [Thh:mm:ss[Z|+00:00]]:
+    {"ok": µs} / {"error"} ; None = no verdict (other shapes)."""
+    m = WEEK_RE.fullmatch(s)
+    if not m or not s.isascii():
+        return None
+    y, w1, d1, w2, d2, hh, mm, ss, _tz = m.groups()
+    week = int(w1 or w2)
+    day = int(d1 or d2 or 1)
+    o = iso_week_spec(int(y), week, day)
+    if o is None or not 1 <= o <= 3652059:
+        return {"error": "ValueError"}
+    t = 0
+    if hh is not None:
+        if int(hh) > 23 or int(mm) > 59 or int(ss) > 59:
+            return {"error": "ValueError"}
+        t = int(hh) * 3600 + int(mm) * 60 + int(ss)
+    return {"ok": ((o - 719163) * 86400 + t) * SEC}
+
+
+def gen_week_date_strings(r: Any, n_random: int) -> list[tuple[str, str]]:
+    out: list[tuple[str, str]] = []
+    tails = ["", "T10:30:00+00:00", "T10:30:00Z", "T23:59:59", "T24:00:00", " 10", "T1030", "-1000", "01", "0100", "é12:00", "\U0001d7ce12", "€12:00:00", "T", "Z", "T10:30:00+01:00", "\x0012", "x"]
+    for y in WEEK_YEARS:
+        for w in (0, 1, 2, 26, 51, 52, 53, 54, 99):
+            for d in (None, 0, 1, 4, 7, 8, 9):
+                for ext in (True, False):
+                    base = f"{y:04d}-W{w:02d}" + ("" if d is None else f"-{d}") if ext else f"{y:04d}W{w:02d}" + ("" if d is None else f"{d}")
+                    out.append(("week:lattice", base))
+                    out.append(("week:lattice", base + "T10:30:00+00:00"))
+                    out.append(("week:lattice:tail", base + r.choice(tails)))
+    alpha = "0123456789-W:T+Z é\x00٣"
+    for _ in range(n_random):
+        y, w, d = r.randrange(1, 10000), r.randrange(1, 54), r.randrange(1, 8)
+        form = r.randrange(4)
+        base = [f"{y:04d}-W{w:02d}-{d}", f"{y:04d}-W{w:02d}", f"{y:04d}W{w:02d}{d}", f"{y:04d}W{w:02d}"][form]
+        x = r.random()
+        if x < 0.4:
+            out.append(("week:random", base + r.choice(["", "", "T10:30:00Z", "T00:00:00", "T23:59:59+00:00"])))
+        elif x < 0.6:
+            out.append(("week:random:tail", base + r.choice(tails)))
+        else:
+            t = list(base + r.choice(["", "T10:30:00", "T1030", "-1000"]))
+            for _ in range(r.randrange(1, 3)):
+                op, pos = r.random(), r.randrange(0, len(t) + 1)
+                if op < 0.4:
+                    t.insert(pos, r.choice(alpha))
+                elif op < 0.7 and t:
+                    del t[min(pos, len(t) - 1)]
+                elif t:
+                    t[min(pos, len(t) - 1)] = r.choice(alpha)
+            out.append(("week:mutated", "".join(t)))
+    # non-ASCII anywhere (UTF-8 octet lengths 2, 3, 4) in ordinary and week dates
+    nonascii = ["é", "€", "\U0001d7ce", "٣", " ", "０"]
+    bases = ["2010-06-30T23:59:59+00:00", "2010-06-30T23:59:59.500000", "20100630T235959", "2010-06-30", "2010-W26-3T23:59:59", "2010W263T2359", "2010-W26T23", "2010W26", "2010-06-30T23:59:59.123456\x00", "2010-06-30T23:59:59.1234567\x00x"]
+    for b in bases:
+        for pos in range(len(b) + 1):
+            for c in nonascii[: 3 if pos not in (7, 8, 10) else 6]:
+                out.append(("nonascii:insert", b[:pos] + c + b[pos:]))
+                if pos < len(b):
+                    out.append(("nonascii:replace", b[:pos] + c + b[pos + 1 :]))
+    return out
+
+
+def _decimal_chars() -> list[list[str]]:
+    import unicodedata
+
+    blocks: list[list[str]] = []
+    for c in range(0x110000):
+        if unicodedata.decimal(chr(c), -1) == 0:
+            blocks.append([chr(c + k) for k in range(10)])
+    return blocks
+
+
+def ascii_digits(s: str) -> str:
+    """every Unicode decimal digit as its ASCII digit, every non-ASCII white space as a blank"""
+    import unicodedata
+
+    return "".join(c if ord(c) < 128 else (str(unicodedata.decimal(c)) if unicodedata.decimal(c, -1) >= 0 else (" " if c.isspace() else c)) for c in s)
+
+
+def gen_unicode_duration_strings(r: Any, n_random: int) -> list[tuple[str, str]]:
+    blocks = _decimal_chars()
+    out: list[tuple[str, str]] = []
+
+    def uni(num: str, p: float = 1.0) -> str:
+        return "".join(r.choice(blocks)[int(ch)] if ch.isdigit() and r.random() < p else ch for ch in num)
+
+    # every script once: P<d>D with d = 0..9, and a two-digit number in that script
+    for b in blocks:
+        k = r.randrange(10)
+        out.append(("uni:script", f"P{b[k]}D"))
+        out.append(("uni:script", f"PT{b[1]}{b[k]}M{b[9]}S"))
+    near = ["²", "½", "①", "〇", "Ⅷ", "௰", "፩", "₀", "\U0001f101", "฿", " ", " ", "\u0085", " ", "　", "​", "﻿", "\x7f", "\x80", "\x1c"]
+    for c in near:
+        out += [("uni:near", f"P{c}D"), ("uni:near", f"P1{c}D"), ("uni:near", f"P1D{c}5"), ("uni:near", f"P1D5{c}"), ("uni:near", f"P1D{c}"), ("uni:near", f"P1{c}"), ("uni:near", f"P1DT5{c}M")]
+    z = blocks[1][0]
+    out += [("uni:limit", "P" + z * 4300 + "D"), ("uni:limit", "P" + z * 4301 + "D"), ("uni:limit", "P1D" + z * 4300), ("uni:limit", "P1D" + z * 4301), ("uni:limit", "P" + "0" * 4299 + z + "1D"),
+            ("uni:limit", "P" + blocks[1][9] * 9 + "D"), ("uni:limit", "P1" + z * 9 + "D"), ("uni:limit", "P14285714" + blocks[2][2] + "W"), ("uni:limit", "P14285714" + blocks[2][3] + "W")]
+    tails = ["", "5", " 5", "-5", "+5", "5_0", "_5", "5 ", "\n5", "x"]
+    while len(out) < n_random + 2 * len(blocks) + 7 * len(near) + 9:
+        s = "P"
+        if r.random() < 0.2:
+            s += uni(str(r.randrange(0, 60)), 0.7) + "W"
+        if r.random() < 0.1:
+            s += uni(str(r.randrange(0, 20))) + "M"
+        if r.random() < 0.7:
+            s += uni(str(r.choice([0, 1, 9, 10, 400, r.randrange(0, 500), 10 ** r.randrange(0, 12)])), 0.7) + "D"
+        if r.random() < 0.6:
+            t = ""
+            if r.random() < 0.5:
+                t += uni(str(r.randrange(0, 100)), 0.7) + "H"
+            if r.random() < 0.5:
+                t += uni(str(r.randrange(0, 1000)), 0.7) + "M"
+            if r.random() < 0.5:
+                t += uni(str(r.randrange(0, 10**6)), 0.7) + "S"
+            s += "T" + t
+        x = r.random()
+        if x < 0.6:
+            out.append(("uni:regular", s))
+        elif x < 0.8:
+            tail = uni(r.choice(tails))
+            if r.random() < 0.5:
+                tail = tail.replace(" ", r.choice([" ", " ", "　", "\u0085", " "]))
+            out.append(("uni:tail", s + tail))
+        else:
+            t2 = list(s)
+            pos = r.randrange(0, len(t2) + 1)
+            t2.insert(pos, r.choice(near + ["٣", "５", "T", "D"]))
+            out.append(("uni:mutated", "".join(t2)))
+    return out
+
+
+def codecs_week_unicode(res: Result, tier: str, driver_ok: bool) -> None:
+    """ISO week dates / non-ASCII octets in parse_datetime, Unicode decimal digits and white space in duration_to_timedelta
+    and int(): real implementation vs model (an `unsupported` answer is a disagreement) vs two independent oracles —
+    the ISO 8601 week definition (4 January / 28 December rule, own ordinal arithmetic) and the digit-script invariance
+    of durations (a text and its ASCII transliteration mean the same)."""
+    from kskm.common.parse_utils import duration_to_timedelta, parse_datetime
+
+    r = lib.rng("C11:codecs:week-unicode")
+    big = tier == "thorough"
+    lines: list[dict[str, Any]] = []
+    cases: list[tuple[str, str, str, Any]] = []
+    for cls, s in gen_week_date_strings(r, 6000 if big else 1500):
+        impl = run_impl(lambda: parse_datetime(s), conv=dt_us)
+        cases.append(("parse_datetime", cls, s, impl))
+        lines.append({"op": "parse_datetime", "text": s})
+        want = week_text_spec(s)
+        if want is not None:
+            res.bump("codec:week:iso-oracle:" + ("ok" if "ok" in want else "error"))
+            if ("ok" in want and impl != want) or ("error" in want and "ok" in impl):
+                res.violation("timestamp codec: an ISO week date is not read as the day ISO 8601 defines", {"kind": "parse_datetime", "text": s}, key="week-date-semantics", impl=impl, expected=want)
+    for cls, s in gen_unicode_duration_strings(r, 6000 if big else 1500):
+        impl = run_impl(lambda: duration_to_timedelta(s), conv=td_us)
+        cases.append(("parse_duration", cls, s, impl))
+        lines.append({"op": "parse_duration", "text": s})
+        t = ascii_digits(s)
+        plain = run_impl(lambda: duration_to_timedelta(t), conv=td_us)
+        res.bump("codec:uni:script-invariance")
+        if not same_outcome(impl, plain) or ("ok" in impl and impl != plain):
+            res.violation("duration codec: a text in other decimal digits is read differently from its ASCII spelling", {"kind": "parse_duration", "text": s}, key="duration-unicode-digits", impl=impl, ascii_text=t, ascii_result=plain)
+        want = iso_duration_spec(t) if not any(c.isspace() for c in s) else None
+        if want is not None and want != "months":
+            res.bump("codec:uni:iso-duration-oracle")
+            if impl != {"ok": want}:
+                res.violation("duration codec: reader value differs from ISO 8601 semantics", {"kind": "parse_duration", "text": s}, key="duration-semantics", impl=impl, expected=want)
+    blocks = _decimal_chars()
+    ints = ["٣", "-٣", " ٣ ", " ٣　", "1_٣", "٣_", "_٣", "٣٣", "１２３", "²", "½", "٣x", " 5", "\x855", "\x1c5", "5\x1c", "​5", "+ ٣", "- ٣", "٣" * 4300, "٣" * 4301, "\x7f", "5\x7f", "?", "٣?", "", " ", " "]
+    ints += ["".join(r.choice(blocks)[r.randrange(10)] if r.random() < 0.7 else r.choice("0123456789_ +- x") for _ in range(r.randrange(1, 8))) for _ in range(1500 if big else 400)]
+    for s in ints:
+        impl = run_impl(lambda: int(s), conv=lambda v: v)
+        cases.append(("py_int", "int", s, impl if "ok" in impl else {"ok": None}))
+        lines.append({"op": "py_int", "text": s})
+    model = run_driver(lines, exe=DRIVER) if driver_ok else [None] * len(lines)
+    for (kind, cls, s, impl), m in zip(cases, model):
+        res.count({"codec": kind, "class": cls, "in": _clip(s, 60)}, nontrivial=True)
+        res.bump(f"codec:{cls}")
+        res.bump(f"codec:{cls}:" + ("ok" if impl.get("ok") is not None else "error"))
+        if m is None:
+            continue
+        if lib.is_unsupported(m):
+            res.disagreement(f"codec {kind}: the model declines an input of a class it must answer", {"kind": kind, "input": _clip(s, 300)}, _clip(impl, 300), m)
+        elif not same_outcome(impl, m):
+            res.disagreement(f"codec {kind}: model != implementation", {"kind": kind, "input": _clip(s, 300)}, _clip(impl, 300), _clip(m, 300))
+    # --- the pieces by themselves: iso_to_ymd / isocalendar / separator finder / octets / decimal-digit table
+    import _pydatetime
+    import unicodedata
+
+    piece_lines: list[dict[str, Any]] = []
+    piece_cases: list[tuple[str, Any, Any]] = []
+    ywd = [(y, w, d) for y in WEEK_YEARS for w in (0, 1, 2, 51, 52, 53, 54) for d in (0, 1, 4, 7, 8)]
+    ywd += [(r.randrange(1, 10000), r.randrange(1, 54), r.randrange(1, 8)) for _ in range(4000 if big else 1000)]
+    for y, w, d in ywd:
+        impl = run_impl(lambda: date.fromisocalendar(y, w, d), conv=lambda v: [v.year, v.month, v.day])
+        piece_cases.append(("iso_to_civil", [y, w, d], impl))
+        piece_lines.append({"op": "iso_to_civil", "y": y, "w": w, "d": d})
+        o = iso_week_spec(y, w, d)
+        res.bump("codec:week:fromisocalendar-oracle")
+        want = None if o is None or not 1 <= o <= 3652059 else date.fromordinal(o)
+        if (want is None) != ("error" in impl) or (want is not None and impl.get("ok") != [want.year, want.month, want.day]):
+            res.violation("ISO week date: date.fromisocalendar differs from the ISO 8601 definition", {"kind": "iso_to_civil", "input": [y, w, d]}, key="week-date-semantics", impl=impl, expected=str(want))
+        if "ok" in impl:
+            back = tuple(date(*impl["ok"]).isocalendar())
+            if back != (y, w, d):
+                res.violation("ISO week date: isocalendar does not undo fromisocalendar", {"kind": "iso_to_civil", "input": [y, w, d]}, key="week-date-roundtrip", impl=list(back))
+    zs = [0, -1, 1, -719162, 2932896]
+    for y in WEEK_YEARS[1:]:
+        j = date(y, 1, 1).toordinal() - 719163
+        zs += [j + k for k in range(-4, 5) if -719162 <= j + k <= 2932896]
+    zs += [r.randrange(-719162, 2932897) for _ in range(3000 if big else 800)]
+    for z in zs:
+        piece_cases.append(("iso_calendar", z, {"ok": list(date.fromordinal(z + 719163).isocalendar())}))
+        piece_lines.append({"op": "iso_calendar", "days": z})
+    for kind, cls, s, _impl in cases:
+        if kind == "parse_datetime" and s.isascii() and len(s) >= 7 and (cls.startswith("week") or r.random() < 0.3):
+            impl = run_impl(lambda: _pydatetime._find_isoformat_datetime_separator(s), conv=lambda v: v)
+            piece_cases.append(("find_iso_separator", s, impl if "ok" in impl else {"ok": -1}))
+            piece_lines.append({"op": "find_iso_separator", "text": s})
+        elif kind == "parse_datetime" and not s.isascii():
+            piece_cases.append(("utf8_octets", s, {"ok": list(s.encode("utf-8"))}))
+            piece_lines.append({"op": "utf8_octets", "text": s})
+    # the general transcription of fromisoformat (octets + week dates) on every timestamp text, ordinary ones included
+    for s in [c[2] for c in cases if c[0] == "parse_datetime"] + gen_datetime_strings(r, 8000 if big else 2500):
+        piece_cases.append(("parse_datetime_octets", s, run_impl(lambda: parse_datetime(s), conv=dt_us)))
+        piece_lines.append({"op": "parse_datetime_octets", "text": s})
+    codes = sorted({c for b in blocks for c in range(ord(b[0]) - 11, ord(b[0]) + 21) if c >= 0} | set(range(0, 0x110000 if big else 0x800)) - set(range(0xD800, 0xE000)))
+    for i in range(0, len(codes), 20000):
+        chunk = codes[i : i + 20000]
+        piece_cases.append(("py_decimal", chunk, {"ok": [unicodedata.decimal(chr(c), -1) for c in chunk]}))
+        piece_lines.append({"op": "py_decimal", "codes": chunk})
+    piece_model = run_driver(piece_lines, exe=DRIVER) if driver_ok else [None] * len(piece_lines)
+    for (kind, inp, impl), m in zip(piece_cases, piece_model):
+        res.count({"codec": kind, "in": inp if not isinstance(inp, list) or len(inp) < 10 else len(inp)}, nontrivial=True)
+        res.bump(f"codec:{kind}")
+        if m is None:
+            continue
+        mm: Any = {"ok": m}
+        if kind == "parse_datetime_octets":
+            mm = m
+        if kind == "iso_to_civil":
+            # the model returns the civil date even outside datetime's years 1..9999 (the caller refuses those)
+            mm = {"error": "ValueError"} if m is None or not 1 <= m[0] <= 9999 else {"ok": m}
+        if not same_outcome(impl, mm) or ("ok" in impl and impl != mm):
+            res.disagreement(f"codec {kind}: model != implementation", {"kind": kind, "input": _clip(inp, 300)}, _clip(impl, 300), _clip(mm, 300))
+    res.sample({"week/unicode codec stream": {"week_dates": sum(1 for c in cases if c[1].startswith("week")), "nonascii_timestamps": sum(1 for c in cases if c[1].startswith("nonascii")), "unicode_durations": sum(1 for c in cases if c[1].startswith("uni")), "ints": len(ints)}})
 
 
 def codecs_tz(res: Result, tier: str, driver_ok: bool) -> None:
@@ -1352,7 +1644,7 @@ def codecs_tz(res: Result, tier: str, driver_ok: bool) -> None:
                 if got != want:
                     res.violation("timestamp codec: the text written is not the instant given (UTC, whole seconds, fraction dropped)", {**case, "tzinfo": str(tzi)}, key="tz:format_datetime", impl=got, expected=want["ok"])
                 m = model[k]
-                if m is not None and not lib.is_unsupported(m) and not same_outcome(got, m):
+                if m is not None and (lib.is_unsupported(m) or not same_outcome(got, m)):
                     res.disagreement("codec format_datetime: model != implementation", {**case, "tzinfo": str(tzi)}, got, m)
         for j, (t, want_us) in enumerate(texts):
             k = len(insts) + j
@@ -1364,7 +1656,7 @@ def codecs_tz(res: Result, tier: str, driver_ok: bool) -> None:
             if obs[k] != utc_obs[k] and not ("error" in obs[k] and "error" in utc_obs[k]):
                 res.violation("timestamp codec: the value read depends on the time zone of the process", case, key="tz:parse-differs-from-utc", impl=obs[k], under_utc=utc_obs[k])
             m = model[k]
-            if m is not None and not lib.is_unsupported(m) and not same_outcome(obs[k], m):
+            if m is not None and (lib.is_unsupported(m) or not same_outcome(obs[k], m)):
                 res.disagreement("codec parse_datetime: model != implementation", case, _clip(obs[k], 300), _clip(m, 300))
 
 
@@ -1636,6 +1928,7 @@ def _run(tier: str, driver_ok: bool) -> Result:
 
     # (g) codecs
     codecs(res, tier, driver_ok)
+    codecs_week_unicode(res, tier, driver_ok)
     codecs_tz(res, tier, driver_ok)
     return res
 
@@ -1705,9 +1998,22 @@ def replay(obj: dict[str, Any]) -> Any:
     if kind in ("parse_duration",):
         s = case.get("text", case.get("input"))
         return {"input": s, "implementation": run_impl(lambda: duration_to_timedelta(s), conv=td_us), "model": run_driver([{"op": "parse_duration", "text": s}], exe=DRIVER)[0], "iso8601": iso_duration_spec(s)}
-    if kind in ("parse_datetime",):
+    if kind in ("iso_to_civil", "iso_calendar", "find_iso_separator", "utf8_octets"):
+        import _pydatetime
+
+        x = case.get("input")
+        if kind == "iso_to_civil":
+            return {"input": x, "implementation": run_impl(lambda: date.fromisocalendar(*x), conv=lambda v: [v.year, v.month, v.day]), "model": run_driver([{"op": kind, "y": x[0], "w": x[1], "d": x[2]}], exe=DRIVER)[0], "iso8601_ordinal": iso_week_spec(*x)}
+        if kind == "iso_calendar":
+            return {"input": x, "implementation": list(date.fromordinal(x + 719163).isocalendar()), "model": run_driver([{"op": kind, "days": x}], exe=DRIVER)[0]}
+        impl = run_impl(lambda: _pydatetime._find_isoformat_datetime_separator(x), conv=lambda v: v) if kind == "find_iso_separator" else {"ok": list(x.encode("utf-8"))}
+        return {"input": x, "implementation": impl, "model": run_driver([{"op": kind, "text": x}], exe=DRIVER)[0]}
+    if kind in ("py_int",):
         s = case.get("text", case.get("input"))
-        return {"input": s, "implementation": run_impl(lambda: parse_datetime(s), conv=dt_us), "model": run_driver([{"op": "parse_datetime", "text": s}], exe=DRIVER)[0]}
+        return {"input": s, "implementation": run_impl(lambda: int(s), conv=lambda v: v), "model": run_driver([{"op": "py_int", "text": s}], exe=DRIVER)[0]}
+    if kind in ("parse_datetime", "parse_datetime_octets"):
+        s = case.get("text", case.get("input"))
+        return {"input": s, "implementation": run_impl(lambda: parse_datetime(s), conv=dt_us), "model": run_driver([{"op": kind, "text": s}], exe=DRIVER)[0]}
     if kind in ("format_duration", "duration_roundtrip"):
         us = case.get("us", case.get("input"))
         t = run_impl(lambda: timedelta_to_duration(us_td(us)), conv=lambda x: x)
